@@ -432,8 +432,8 @@ def compare(acc, case, base, new, T, viol, stats):
         stats['rows_excluded_by_footprint'] += int((~okb).sum())
         if int(okb.sum()) != int(okn.sum()):
             viol('rows', f'{api}:interior-row-count', int(okn.sum()), int(okb.sum()),
-                 f'number of rows with footprint inside the original frame differs (base xy {short_xy(base, okb)}; '
-                 f'new xy {short_xy(new, okn)})')
+                 f'number of rows with footprint inside the original frame differs (positions in base-frame '
+                 f'coordinates; only in base: {only_xy(base, okb, new, okn)}; only in new: {only_xy(new, okn, base, okb)})')
             return
         if T.kind == 'T':
             raise RuntimeError('detected-row tables are not transposed')
@@ -566,8 +566,14 @@ def describe_expect(kind, T):
             'sym2': 'axes reversed', 'ang_deg': '90deg - theta (mod 180)', 'ang_rad': 'pi/2 - theta (mod pi)'}.get(kind, 'unchanged')
 
 
-def short_xy(res, ok):
+def short_xy(res, ok, limit=8):
     if res.rowxy is None:
-        return ''
+        return []
     x, y = res.rowxy
-    return [(round(float(a), 2), round(float(b), 2)) for a, b in zip(np.asarray(x)[ok], np.asarray(y)[ok])][:8]
+    return [(round(float(a), 2), round(float(b), 2)) for a, b in zip(np.asarray(x)[ok], np.asarray(y)[ok])][:limit]
+
+
+def only_xy(a, oka, b, okb):
+    """Row positions (rounded, base-frame coordinates) of ``a`` that have no partner in ``b``."""
+    pa, pb = short_xy(a, oka, None), set(short_xy(b, okb, None))
+    return [p for p in pa if p not in pb][:8]
